@@ -1972,8 +1972,8 @@ func (ctx Ctx) funcDecl(d *ast.FuncDecl) coq.FuncDecl {
 	return fd
 }
 
-func (ctx Ctx) constSpec(spec *ast.ValueSpec) coq.ConstDecl {
-	ident := spec.Names[0]
+func (ctx Ctx) constSpec(spec *ast.ValueSpec, i int) coq.ConstDecl {
+	ident := spec.Names[i]
 	cd := coq.ConstDecl{
 		Name:     ident.Name,
 		AddTypes: ctx.PkgConfig.TypeCheck,
@@ -1982,14 +1982,17 @@ func (ctx Ctx) constSpec(spec *ast.ValueSpec) coq.ConstDecl {
 	if len(spec.Values) == 0 {
 		ctx.unsupported(spec, "const with no value")
 	}
-	val := spec.Values[0]
+	if len(spec.Values) != len(spec.Names) {
+		ctx.unsupported(spec, "declaration of several names from one value")
+	}
+	val := spec.Values[i]
 	cd.Val = ctx.expr(val)
 	if spec.Type == nil {
 		cd.Type = ctx.coqTypeOfType(spec, ctx.typeOf(val))
 	} else {
 		cd.Type = ctx.coqType(spec.Type)
 	}
-	cd.Val = ctx.expr(spec.Values[0])
+	cd.Val = ctx.expr(spec.Values[i])
 	return cd
 }
 
@@ -1997,8 +2000,11 @@ func (ctx Ctx) constDecl(d *ast.GenDecl) []coq.Decl {
 	var specs []coq.Decl
 	for _, spec := range d.Specs {
 		vs := spec.(*ast.ValueSpec)
-		ctx.dep.addName(vs.Names[0].Name)
-		specs = append(specs, ctx.constSpec(vs))
+		// const a, b = 1, 2 declares one constant per name
+		for i := range vs.Names {
+			ctx.dep.addName(vs.Names[i].Name)
+			specs = append(specs, ctx.constSpec(vs, i))
+		}
 	}
 	return specs
 }
@@ -2011,8 +2017,10 @@ func (ctx Ctx) globalVarDecl(d *ast.GenDecl) []coq.Decl {
 	var specs []coq.Decl
 	for _, spec := range d.Specs {
 		vs := spec.(*ast.ValueSpec)
-		ctx.dep.addName(vs.Names[0].Name)
-		specs = append(specs, ctx.constSpec(vs))
+		for i := range vs.Names {
+			ctx.dep.addName(vs.Names[i].Name)
+			specs = append(specs, ctx.constSpec(vs, i))
+		}
 	}
 	return specs
 }
